@@ -78,6 +78,7 @@ def dump_type(t, root: str) -> dict:
         'deprecated': bool(t.deprecated), 'root': root, 'fixed_port_id': t.fixed_port_id,
         'empty_sections': sum(1 for s in sections if len([f for f in s.fields_except_padding]) == 0),
         'padding_only_sections': sum(1 for s in sections if len(s.fields) > 0 and len(s.fields_except_padding) == 0),
+        'docs': [d for d in [getattr(t, 'doc', '')] + [getattr(s_, 'doc', '') for s_ in sections] + [getattr(a, 'doc', '') for s_ in sections for a in s_.attributes] if d],
         'source': os.path.basename(str(t.source_file_path)),
         'consts': dump_consts(sections),
         # per section: the non-padding fields in declaration order as [name, type encoding]
@@ -219,6 +220,8 @@ def cfg_key(c: dict) -> str:
     k = '%s/%s/%s' % (c['lang'], c.get('std') or '-', 'pod' if c['pod'] else 'ser')
     if c.get('opts'):
         k += '/' + '+'.join(o.lstrip('-') for o in c['opts'])
+    if c.get('yaml'):
+        k += '/yaml:' + ','.join('%s=%s' % (kk, vv) for sec in sorted(c['yaml']) for kk, vv in sorted(c['yaml'][sec].items()))
     return k
 
 
@@ -228,7 +231,14 @@ def nnvg_cmd(cfg: dict, root_dir: str, lookups, out: str):
         cmd += ['--experimental-languages', '--language-standard', cfg['std']]
     if cfg['pod']:
         cmd += ['--omit-serialization-support']
-    cmd += list(cfg.get('opts') or [])          # language options (CLI flags), e.g. --target-endianness big
+    cmd += list(cfg.get('opts') or [])          # language options / generic generator flags (CLI), e.g. --target-endianness big
+    if cfg.get('yaml'):
+        # a --configuration file overriding keys of a language section, e.g. {"nunavut.lang.cpp": {"use_standard_types": False}}
+        import json as _json
+        yp = os.path.join(out, '..', 'cfg_%s.yaml' % re.sub(r'[^A-Za-z0-9]', '_', _json.dumps(cfg['yaml'], sort_keys=True))[:80])
+        with open(yp, 'w', encoding='utf-8') as f:
+            f.write(_json.dumps(cfg['yaml']))      # JSON is YAML
+        cmd += ['--configuration', yp]
     for l in lookups:
         cmd += ['--lookup-dir', l]
     cmd.append(root_dir)
